@@ -116,6 +116,63 @@ def run(payload):
                 fail("reuse_after_clearing_the_data_shape", first=first, second=second, got_class=type(back).__name__, got_shape=list(back.data.shape), want_shape=list(f2.data.shape))
         except Exception as e:
             fail("error", ops=["reuse after clear(clear_data_shape=True)", first, second], error=f"{type(e).__name__}: {e}")
+    # appended sessions that restart the clock: time stamps are not sorted; extract_time_range keeps exactly the frames inside
+    g1 = UnitGrid([3])
+    st = MemoryStorage(write_mode="append")
+    want_all = []
+    for sess in range(2):
+        f_ = ScalarField(g1, float(sess))
+        st.start_writing(f_)
+        for t_ in (0.0, 1.0, 2.0):
+            f_.data[...] = 10 * sess + t_
+            st.append(f_, t_)
+            want_all.append((t_, 10 * sess + t_))
+        st.end_writing()
+    for a_, b_ in ((1.0, 2.0), (0.0, 0.5), (1.5, 5.0)):
+        cases += 1
+        sub = st.extract_time_range((a_, b_))
+        got = [(t_, float(fr.data[0])) for t_, fr in sub.items()]
+        want = [(t_, v_) for t_, v_ in want_all if a_ <= t_ <= b_]
+        if got != want:
+            fail("extract_time_range_with_unsorted_times", range=[a_, b_], got=got, want=want)
+    # a view of one field of a collection: indexing with a slice gives the list of that field over the frames
+    col = FieldCollection([ScalarField(g1, 1.0), ScalarField(g1, 2.0)], labels=["a", "b"])
+    st = MemoryStorage()
+    st.start_writing(col)
+    for t_ in range(3):
+        col[1].data[...] = 100 + t_
+        st.append(col, float(t_))
+    st.end_writing()
+    cases += 1
+    try:
+        part = st.view_field("b")[0:2]
+        ok_ = isinstance(part, list) and len(part) == 2 and all(isinstance(x, ScalarField) for x in part) and [float(x.data[0]) for x in part] == [100.0, 101.0]
+        if not ok_:
+            fail("view_slice_is_not_the_list_of_that_field", got=repr(part)[:200])
+    except Exception as e:
+        fail("error", ops=["view_field('b')[0:2]"], error=f"{type(e).__name__}: {e}")
+    # readonly disables writing completely: append without start_writing
+    ro = MemoryStorage(times=[0.0, 1.0], data=[np.zeros(3), np.ones(3)], field_obj=ScalarField(g1), write_mode="readonly")
+    cases += 1
+    try:
+        ro.append(ScalarField(g1, 5.0), 2.0)
+        fail("readonly_storage_accepted_an_append", frames=len(ro))
+    except RuntimeError:
+        pass
+    # append mode, second session on ANOTHER grid of the same shape: the frames of the first session keep their grid
+    from pde import CartesianGrid as _CG
+    st = MemoryStorage(write_mode="append")
+    fa = ScalarField(UnitGrid([4]), 1.0)
+    st.start_writing(fa); st.append(fa, 0.0); st.end_writing()
+    cases += 1
+    try:
+        fb = ScalarField(_CG([[0, 2]], 4), 1.0)
+        st.start_writing(fb); st.append(fb, 1.0); st.end_writing()
+        back = st[0]
+        if back.grid != fa.grid or abs(back.integral - fa.integral) > 1e-12:
+            fail("earlier_frames_read_on_the_grid_of_a_later_session", grid_of_frame_0=repr(back.grid), stored_on=repr(fa.grid), integral=float(back.integral), integral_stored=float(fa.integral))
+    except (ValueError, RuntimeError):
+        pass  # refusing the second session is fine
     # readonly
     st = MemoryStorage(write_mode="readonly")
     try:
